@@ -28,7 +28,12 @@ type globTok struct {
 
 // GlobParse tokenises p. broken: matches nothing. unspec: hinges on
 // undefined grammar.
-func GlobParse(p string) (toks []globTok, broken, unspec bool) {
+func GlobParse(p string) (toks []globTok, broken, unspec bool) { return globParse(p, 0) }
+
+// globParse: rev says how a reversed range [y-x] (y > x) is read. 0: as [x-y], and the pattern is flagged as hinging
+// on undefined grammar. 1 and 2 do not flag it and produce the smallest and the largest byte set any reading can give
+// the class: nothing at all for the range, or the bytes from x to y plus '-'.
+func globParse(p string, rev int) (toks []globTok, broken, unspec bool) {
 	i := 0
 	for i < len(p) {
 		c := p[i]
@@ -101,15 +106,22 @@ func GlobParse(p string) (toks []globTok, broken, unspec bool) {
 						first = false
 						continue
 					}
-					if hi < ch {
+					if hi < ch && rev == 0 {
 						unspec = true
 					}
 					lo, h2 := ch, hi
 					if h2 < lo {
 						lo, h2 = h2, lo
 					}
-					for b := int(lo); b <= int(h2); b++ {
-						set[b] = true
+					// a negated class is the complement: its smallest reading comes from the largest inner set
+					widest := hi >= ch || rev == 0 || (rev == 2) != neg
+					if widest {
+						for b := int(lo); b <= int(h2); b++ {
+							set[b] = true
+						}
+						if hi < ch && rev != 0 {
+							set['-'] = true
+						}
 					}
 					i += 3
 					first = false
@@ -185,7 +197,20 @@ func globMatchToks(toks []globTok, s string) bool {
 func Glob(pattern, key string) GlobVerdict {
 	toks, broken, unspec := GlobParse(pattern)
 	if unspec {
-		// how the rest of the pattern parses (even whether it is broken) hinges on an undefined construct
+		// how the rest of the pattern parses (even whether it is broken) hinges on an undefined construct. One
+		// construct leaves the parse alone whatever it means - a range written with the larger bound first: no reading
+		// lets it match a byte outside the two bounds (and '-'). If nothing else is undefined, the verdicts under the
+		// narrowest and the widest reading bracket every possible one.
+		tmin, bmin, umin := globParse(pattern, 1)
+		tmax, bmax, umax := globParse(pattern, 2)
+		if !umin && !umax && !bmin && !bmax {
+			if !globMatchToks(tmax, key) {
+				return GlobNo
+			}
+			if globMatchToks(tmin, key) {
+				return GlobYes
+			}
+		}
 		return GlobUnspecified
 	}
 	if broken {
